@@ -10,7 +10,7 @@ EXPLANATION = (
     'which produces its Ok value only from the KeyValueResponse::K arm; R17.b every field of the operation comes from the like-named '
     'parameter through at most Into::into, every component returned by unwrap_K comes from the matched response field through at most '
     'the Value -> Option conversion, and the shell\'s error is returned (a clone is tabled); R17.c the two Value conversions map '
-    'None <-> Value::None and Some(b) <-> Value::Bytes(b) with b moved and no call. Bytes across the bridge are C10; R17.f shares its codec rules (no byte limit, one options value, fresh output buffer), since a limit would reject large values only on the bridge path; R17.g shares the wire-type rules of C10 restricted to the crux_kv types (only wire-neutral serde attributes, both directions derived). R17.h each public capability method (K with an event constructor, K_async) makes one call of its request function on every path with the like-named parameters and hands back exactly the awaited answer.')
+    'None <-> Value::None and Some(b) <-> Value::Bytes(b) with b moved and no call. Bytes across the bridge are C10; R17.f shares its codec rules (no byte limit, one options value, fresh output buffer), since a limit would reject large values only on the bridge path; R17.g shares the wire-type rules of C10 restricted to the crux_kv types (only wire-neutral serde attributes, both directions derived). R17.h each public capability method (K with an event constructor, K_async) makes one call of its request function on every path with the like-named parameters and hands back exactly the awaited answer. R17.b returns-unwrapped: in the body that calls unwrap_K the value returned is that call\'s result and nothing else.')
 
 OPS = [('Get', 'get', 'unwrap_get', {'key': 'key'}, {'value'}),
        ('Set', 'set', 'unwrap_set', {'key': 'key', 'value': 'value'}, {'previous'}),
